@@ -30,7 +30,7 @@ from ..ref import corr as refc
 
 ID = 'C14'
 LEVEL = 'exploration'
-DECIDING = ['rejections_judged', 'correlators_with_zero_valued_entries', 'mutation_calls_checked', 'timeslices_judged', 'entries_compared', 'index_map_calls', 'repeat_calls_compared', 'hardening_scenarios', 'held_results_checked',
+DECIDING = ['projected_normalize_near_unit_norm', 'rejections_judged', 'correlators_with_zero_valued_entries', 'mutation_calls_checked', 'timeslices_judged', 'entries_compared', 'index_map_calls', 'repeat_calls_compared', 'hardening_scenarios', 'held_results_checked',
             'tap:Corr.__add__', 'tap:Corr.__rtruediv__', 'tap:Corr.projected', 'tap:Corr.__repr__', 'tap:Corr.roll']
 RULE = ('cases: correlators with T=2..16 (matrix content: mostly T<=8, 15% up to 16), N=1..3, real (Obs) or complex (CObs) content on 1-2 replicas with strided / gapped '
         'configuration lists, undefined timeslices of kind none / padding (constructor argument) / one interior / random set; '
@@ -371,7 +371,7 @@ def has_undefined(*Ms):
     return any(m is None for M in Ms for m in M)
 
 
-def judge_corr(ctx, got, exp, label, plabel=None, hint=(0.0, 0.0), hints=None, rv=True, identical_to=None):
+def judge_corr(ctx, got, exp, label, plabel=None, hint=(0.0, 0.0), hints=None, rv=True, identical_to=None, rtol=RTOL):
     """compare a library result with the reference model exp.  Tags:
          result-type:<label>, shape:<plabel>:T|N|entry,
          pattern:<plabel>:nan-entry-kept | defined-where-expected-undefined | undefined-where-expected-defined,
@@ -415,7 +415,7 @@ def judge_corr(ctx, got, exp, label, plabel=None, hint=(0.0, 0.0), hints=None, r
         vs, ds = hints[t] if hints is not None else hint
         for i in range(len(e)):
             for j in range(len(e)):
-                same_scalar(ctx, g[i][j], e[i][j], 'value:' + label, 't=%d [%d,%d] of T=%d' % (t, i, j, T), vs, ds, rv)
+                same_scalar(ctx, g[i][j], e[i][j], 'value:' + label, 't=%d [%d,%d] of T=%d' % (t, i, j, T), vs, ds, rv, rtol)
         compared += 1
     return compared
 
@@ -1354,12 +1354,12 @@ def shared_entry_arrays(res, *operands):
     return n
 
 
-def judged_call(ctx, rng, label, plabel, call, args, exp, hint=(0.0, 0.0), hints=None, context=None, operands=()):
+def judged_call(ctx, rng, label, plabel, call, args, exp, hint=(0.0, 0.0), hints=None, context=None, operands=(), rtol=RTOL):
     res, exc = run_twice(ctx, call, args, label)
     if exc is not None:
         report_raise(ctx, exc, plabel, label, exp, True, context or context_of(*[to_model(a) for a in args if is_corr(a)]))
         return None
-    n = judge_corr(ctx, res, exp, label, plabel, hint=hint, hints=hints)
+    n = judge_corr(ctx, res, exp, label, plabel, hint=hint, hints=hints, rtol=rtol)
     mark_nontrivial(ctx, n, True, label, *args)
     k = shared_entry_arrays(res, *[a for a in args if is_corr(a)])
     if k:
@@ -1713,7 +1713,7 @@ def hard_near_symmetric(ctx, rng, mask, k=0):
     N = int(rng.integers(2, 4))
     lay = Layout(rng)
     sc = [1e-8, 1.0, 1e8, 1e-4, 1e4][k % 5]
-    level = [0.3, 1e-3, 0.3, 1e-3, 1e-9][(k // 5) % 5]
+    level = [0.3, 1e-6, 0.3, 1e-3, 1e-9][(k // 5) % 5]
     only_fluctuations_differ = (k // 5) % 5 in (2, 3)
     defined, _ = none_mask(rng, T, mask if mask != 'padding' else 'many')
     mats = []
@@ -2004,9 +2004,86 @@ def hard_degenerate(ctx, rng, mask):
     ctx.cell('hard', 'degenerate', mask)
 
 
+def hard_near_special(ctx, rng, mask):
+    """inputs NEAR a special value, where the library must decide exactly and not by a tolerance: projection vectors whose norm is
+    1 +- 1e-3 / 1e-6 / 1e-9 / 1e-12 (typed-in eigenvectors), exactly 1 and far from 1, with normalize on; divisors and exponents
+    next to the values that are treated specially; judged with rtol 1e-12 (the reference and the library differ only by the order
+    of a few additions) so that a relative error of 1e-9 shows"""
+    T = int(rng.integers(2, 9))
+    N = int(rng.integers(2, 4))
+    lay = Layout(rng)
+    G = make_corr(ctx, rng, T, N, 'real', mask, lay, scale=False)
+    MG = to_model(G)
+    hg = hint_global(MG)
+    tight = dict(hint=(hg[0] * N * N, hg[1] * N * N), rtol=1e-12)
+
+    def unit():
+        u = rng.normal(size=N)
+        return u / np.sqrt(u @ u)
+
+    def near_unit(eps):
+        return unit() * (1.0 + eps)
+    vecs = [('norm 1 + %g' % e, near_unit(e)) for e in (1e-3, -1e-3, 1e-6, -1e-6, 1e-9, -1e-9, 1e-12)]
+    vecs.append(('five digits', np.round(unit(), 5)))
+    vecs.append(('seven digits', np.round(unit(), 7)))
+    vecs.append(('exactly normalised', unit()))
+    far = rng.integers(1, 5, size=N).astype(float) * rng.choice([-1.0, 1.0], size=N)
+    vecs.append(('far from 1', far))
+    for name, v in vecs:
+        v0 = [float(x) for x in v]
+        ctx.count('projected_normalize_near_unit_norm')
+        judged_call(ctx, rng, 'projected(normalize, vector of %s)' % ('norm near 1' if 'norm 1' in name or 'digits' in name else name), 'projected',
+                    lambda v=v: G.projected(v, normalize=True), [G, v], refc.projected(MG, v0, v0, True), **tight)
+    # two different vectors: one next to unit norm, one far; and the other way round
+    a, b = near_unit(float(rng.choice([1e-6, -1e-6, 3e-6, 1e-9]))), far
+    for l, r in ((a, b), (b, a)):
+        judged_call(ctx, rng, 'projected(normalize, one vector of norm near 1)', 'projected', lambda l=l, r=r: G.projected(l, r, normalize=True), [G, l, r],
+                    refc.projected(MG, [float(x) for x in l], [float(x) for x in r], True), **tight)
+    # per-timeslice lists whose vectors have norms near 1, alone and next to a single array
+    vl = [near_unit(float(rng.choice([1e-3, 1e-6, -1e-6, 1e-9, 0.0]))) for _ in range(T)]
+    l0 = [[float(x) for x in w] for w in vl]
+    judged_call(ctx, rng, 'projected(normalize, list of vectors of norm near 1)', 'projected', lambda: G.projected(vl, normalize=True), [G, vl],
+                refc.projected(MG, l0, l0, True), **tight)
+    w = near_unit(1e-6)
+    judged_call(ctx, rng, 'projected(normalize, list and vector of norm near 1)', 'projected', lambda: G.projected(vl, w, normalize=True), [G, vl, w],
+                refc.projected(MG, l0, [float(x) for x in w], True), **tight)
+    # without normalisation nothing may be normalised, however close to 1 the norm is
+    v = near_unit(1e-6)
+    judged_call(ctx, rng, 'projected(no normalisation, vector of norm near 1)', 'projected', lambda: G.projected(v), [G, v],
+                refc.projected(MG, [float(x) for x in v], [float(x) for x in v], False), **tight)
+    # divisors next to zero are not zero; exponents next to an integer are not integers
+    A = make_corr(ctx, rng, T, 1, 'real', mask, lay, prof='alternating', scale=False)
+    MA = to_model(A)
+    for tiny in (1e-9, -1e-12, 1e-30):
+        judged_call(ctx, rng, '/(Corr,float next to zero)', '__truediv__', lambda tiny=tiny: A / tiny, [A],
+                    refc.binary_scalar(operator.truediv, MA, tiny, isnan=isnan_scalar), hints=None, hint=(0.0, 0.0))
+    yo = lay.obs(rng, 1.0, rel=0.05)
+    yo = (yo - yo.value) + 1e-11                                   # central value 1e-11, fluctuations of order 0.05
+    judged_call(ctx, rng, '/(Corr,Obs with value next to zero)', '__truediv__', lambda: A / yo, [A, yo],
+                refc.binary_scalar(operator.truediv, MA, yo, isnan=isnan_scalar))
+    for ex in (2.0 + 1e-9, 2.0, 1.0 - 1e-12):
+        judged_call(ctx, rng, '**(Corr,float next to an integer)', '__pow__', lambda ex=ex: A ** ex, [A],
+                    refc.binary_scalar(operator.pow, MA, ex, isnan=isnan_scalar), hints=hints_per_t(MA))
+    for par in (1.0 + 1e-9, -1.0 + 1e-12):
+        must_reject(ctx, 'T_symmetry(parity next to +-1)', lambda par=par: A.T_symmetry(A, par), (Exception,), [A])
+    # arguments of functions next to the boundary of their domain: inside -> defined, outside -> undefined
+    for fname, inside, outside in (('arcsin', 1 - 1e-9, 1 + 1e-9), ('arccos', -1 + 1e-9, -1 - 1e-9), ('arctanh', 1 - 1e-9, 1 + 1e-9),
+                                   ('arccosh', 1 + 1e-9, 1 - 1e-9), ('log', 1e-12, -1e-12), ('sqrt', 1e-12, -1e-12)):
+        ent = [lay.obs(rng, 0.5, rel=0.01) for _ in range(4)]
+        ent[1] = (ent[1] - ent[1].value) + inside
+        ent[2] = (ent[2] - ent[2].value) + outside
+        if fname == 'arccosh':
+            ent[0], ent[3] = ent[0] + 1.0, ent[3] + 1.0
+        B = PE.Corr(list(ent))
+        MB = to_model(B)
+        sf = getattr(np, fname)
+        judged_call(ctx, rng, fname + ' next to the boundary of the domain', fname, lambda sf=sf: sf(B), [B], refc.unary(sf, MB, isnan_scalar))
+    ctx.cell('hard', 'near-special', mask)
+
+
 # scenario, cases per kind of undefined set and quick run: the cheap ones often, the ones that make 20-60 judged calls per case less often
 HARD_WEIGHTS = [(hard_same_operand, 13), (hard_same_entry, 10), (hard_held_results, 5), (hard_boundary, 6), (hard_representation, 6),
-                (hard_one_by_one, 13), (hard_near_symmetric, 13), (hard_rejections, 13), (hard_degenerate, 13)]
+                (hard_one_by_one, 13), (hard_near_symmetric, 13), (hard_rejections, 13), (hard_degenerate, 13), (hard_near_special, 13)]
 HARD = []
 for _k in range(max(w for _, w in HARD_WEIGHTS)):
     HARD += [(f, _k) for f, w in HARD_WEIGHTS if _k < w]
